@@ -112,7 +112,7 @@ class BitWriter:
             for x in bits[i:i+8]: b=(b<<1)|x
             out.append(b)
         return bytes(out)
-def encode(chans, rng, version=2, ftype=TYPE_S16LH, blocksize=16, maxnlpc=0, nmean=4, plan=None):
+def encode(chans, rng, version=2, ftype=TYPE_S16LH, blocksize=16, maxnlpc=0, nmean=4, plan=None, inject=None):
     """chans: list (per channel) of lists of ints in the OUTPUT domain (PCM values; for AU types internal values).
     returns stream bytes and stats"""
     nchan=len(chans); n=len(chans[0])
@@ -124,7 +124,17 @@ def encode(chans, rng, version=2, ftype=TYPE_S16LH, blocksize=16, maxnlpc=0, nme
     bitshift=0; lpcqoffset=32 if version>1 else 0
     pos=0; cur_bs=blocksize; stats={'cmds':{}, 'bitshifts':set(), 'nlpc':set(), 'blocksizes':set()}
     def stat(c): stats['cmds'][c]=stats['cmds'].get(c,0)+1
+    def foreign():
+        # inject = (where, code, payload bytes): a command code outside the format (9 is the "verbatim" chunk of later
+        # shorten versions: a 5-bit-coded length and that many 8-bit-coded bytes), making the stream INVALID on purpose
+        bw.uvar(inject[1],2)
+        if inject[2] is not None:
+            bw.uvar(len(inject[2]),5)
+            for b in inject[2]: bw.uvar(b,8)
+    nblk=0
     while pos<n:
+        if inject and ((inject[0]=='start' and nblk==0) or (inject[0]=='mid' and nblk==1)): foreign()
+        nblk+=1
         bs=min(cur_bs,n-pos)
         if rng.random()<0.15 and bs>nwrap: bs=int(rng.integers(max(1,nwrap),bs+1))   # shrink
         elif rng.random()<0.1 and cur_bs<blocksize: bs=min(int(rng.integers(cur_bs,blocksize+1)),n-pos)   # grow back (never beyond the initial size)
@@ -188,5 +198,6 @@ def encode(chans, rng, version=2, ftype=TYPE_S16LH, blocksize=16, maxnlpc=0, nme
                 offs[c]=offs[c][1:nmean]+[cdiv(s,bs)<<(bitshift if version>=2 else 0)]
             hist[c]=(hist[c]+blk)[-nwrap:]
         pos+=bs
+    if inject and (inject[0]=='end' or (inject[0]=='mid' and nblk<2)): foreign()
     bw.uvar(FN_QUIT,2); stat(FN_QUIT)
     return b'ajkg'+bytes([version])+bw.tobytes(), stats
